@@ -414,8 +414,7 @@ def gen_es(rng, tier):
 
 REG_LOSSES = ["mse", "mae", "cauchy"]
 CLS_LOSSES = ["s-classnll", "s-logistic", "s-exponential", "s-hinge", "s-squared-hinge", "s-savage", "s-tangent"]
-PROTOS = ["affine", "dense-table", "stump", "hinge", "dstep-table", "kbest-table", "ksplit-table"]
-# dtree: see DTREE_OP below
+PROTOS = ["affine", "dense-table", "stump", "hinge", "dstep-table", "kbest-table", "ksplit-table", "dtree"]
 
 
 def _task_loss(rng):
@@ -453,17 +452,9 @@ def gen_fit(rng, tier):
     return ops
 
 
-# Predicting with a fitted `dtree` weak learner on a few samples reaches stump_wlearner_t::split with an empty subset and
-# dies in dataset_t::check (the message arguments samples.min()/max() are evaluated although the guard is false; the fix
-# a3376f9 of C08 is incomplete). One such fit is kept as the LAST op of every run so that the crash is reported without
-# cutting off the other ops; dtree is otherwise kept out of the random prototype pools.
-DTREE_OP = ("fit gboost 1035226712 33 3 1 reg mse 5 720 40 1 3f847ae147ae147b gboost global wei_grad_bootstrap "
-            "dtree,stump,dstep-table 3fa999999999999a 16")
-
-
 def gen(rng, tier):
     os.makedirs(HARNESS_ENV["TMPDIR"], exist_ok=True)
-    return _corpus() + gen_fit(rng, tier) + gen_es(rng, tier) + [DTREE_OP]
+    return _corpus() + gen_fit(rng, tier) + gen_es(rng, tier)
 
 
 # ---------------------------------------------------------------------------------------------------------
